@@ -726,7 +726,7 @@ func (m *Dense) Scale(f float64, a Matrix) {
 		return
 	}
 
-	m.checkOverlapMatrix(a)
+	m.checkOverlapMatrix(aU)
 	for r := 0; r < ar; r++ {
 		for c := 0; c < ac; c++ {
 			m.set(r, c, f*a.At(r, c))
@@ -766,7 +766,7 @@ func (m *Dense) Apply(fn func(i, j int, v float64) float64, a Matrix) {
 		return
 	}
 
-	m.checkOverlapMatrix(a)
+	m.checkOverlapMatrix(aU)
 	for r := 0; r < ar; r++ {
 		for c := 0; c < ac; c++ {
 			m.set(r, c, fn(r, c, a.At(r, c)))
